@@ -44,6 +44,9 @@ def layouts(draw, max_frames=10):
     return dict(gaps=gaps, partition=part, s0=s0, nsteps=nsteps, reverse=draw(st.booleans()),
                 scalars=draw(st.sampled_from([[], ["temp"], ["temp", "salt"]])),
                 storage=draw(st.sampled_from(["f8", "f8", "f4"])), seed=draw(st.integers(0, 10**6)),
+                # optionally every file has its own storage (float, or packed with its own scale_factor / add_offset)
+                storages=draw(st.one_of(st.none(), st.lists(st.sampled_from(["f8", "f4", "p1", "p2", "p3"]),
+                                                            min_size=2, max_size=4))),
                 mask=draw(st.sampled_from(["none", "islands"])), h=draw(st.sampled_from(["flat", "noise"])))
 
 
@@ -68,8 +71,12 @@ def setup(d, case):
     for n, cnt in enumerate(part):
         idx = order[a:a + cnt]
         path = d / f"f_{n:03d}.nc"
+        stor = case["storage"]
+        if case.get("storages"):
+            stor = {"f8": "f8", "f4": "f4", "p1": ("i2", 1e-4), "p2": ("i2", 2.5e-4), "p3": ("i2", 1e-3)}[
+                case["storages"][n % len(case["storages"])]]
         got = roms.write_roms(path, G, [ftimes[i] for i in idx], U[idx], V[idx],
-                              extra={k: v[idx] for k, v in extra.items()}, storage=case["storage"])
+                              extra={k: v[idx] for k, v in extra.items()}, storage=stor)
         for nm in dec:
             for pos, i in enumerate(idx):
                 dec[nm][i] = np.asarray(got[nm][pos], dtype=float)
@@ -104,6 +111,8 @@ def oracle(case) -> core.CaseResult:
     res.cls("all_gap1" if set(gaps) == {1} else ("equal_gaps" if len(set(gaps)) == 1 else "irregular"))
     res.cls("reversed" if case["reverse"] else "forward")
     res.cls("multi_file" if len(case["partition"]) > 1 else "single_file")
+    if case.get("storages") and len(case["partition"]) > 1 and len(set(case["storages"][:len(case["partition"])])) > 1:
+        res.cls("files_stored_differently")
     with e2e.workdir() as d:
         G, c, dec, files, start, stop = setup(d, case)
         zr = roms.grid_zr(G)
@@ -120,7 +129,7 @@ def oracle(case) -> core.CaseResult:
                 if k == 0:
                     KA.append(ka)
         maxF = 1.0
-        eps = 2.0**-23 if case["storage"] == "f4" else 1e-13
+        eps = 2.0**-23 if (case["storage"] == "f4" or case.get("storages")) else 1e-13
         tol = (max(gaps) + 4) * eps * maxF * 4
         modules = {}
         try:
